@@ -13,7 +13,7 @@ import (
 
 // history alphabet switches
 type alpha struct {
-	tx, gc, drain, reopen bool
+	tx, gc, drain, reopen, otherDB bool
 	maxTx                 int
 	levels                []model.TxIsoLevel
 }
@@ -57,6 +57,9 @@ func (w *world) step(a alpha, id string) string {
 	if a.reopen {
 		opts = append(opts, opt{7, 0, ""})
 	}
+	if a.otherDB && !w.otherOpened {
+		opts = append(opts, opt{8, 0, ""})
+	}
 	o := opts[nd.Choice("op", len(opts))]
 	switch o.kind {
 	case 0:
@@ -81,10 +84,18 @@ func (w *world) step(a alpha, id string) string {
 	case 6:
 		verifenv.RunJobs()
 		return "drain"
-	default:
+	case 7:
 		w.reopen(id)
 		nd.Reach(id + ".reopen")
 		return "reopen"
+	default:
+		// the same process opens another (smaller) database meanwhile
+		w.otherOpened = true
+		cfg2 := stdConfig("other-root")
+		cfg2.Storage.DbPath = "other-db"
+		openSeq(cfg2)
+		nd.Reach(id + ".other-db-opened-meanwhile")
+		return "other-db"
 	}
 }
 
@@ -140,9 +151,10 @@ func VerifH05b() {
 	k := histSteps(3, 5)
 	nd.Bound("H05b.steps", k)
 	w := newWorld(stdConfig(), []string{"a"})
-	a := alpha{tx: true, reopen: true, drain: true, maxTx: 1, levels: []model.TxIsoLevel{fs_db.IsoLevelReadCommitted}}
+	a := alpha{tx: true, reopen: true, drain: true, otherDB: true, maxTx: 1, levels: []model.TxIsoLevel{fs_db.IsoLevelReadCommitted}}
 	// another database instance of the same process may have advanced the process counter
 	if nd.Choice("other-db-first", 2) == 1 {
+		w.otherOpened = true
 		cfg2 := stdConfig("other-root")
 		cfg2.Storage.DbPath = "other-db"
 		o, _ := openSeq(cfg2)
